@@ -55,6 +55,8 @@ type c02Req struct {
 	CPUms int `json:"cpums"`
 	// Full asks for the complete output text of the first run.
 	Full bool `json:"full"`
+	// Known (parent side only): see c02Case.known
+	Known bool `json:"-"`
 }
 
 type c02Resp struct {
@@ -539,7 +541,10 @@ type c02Pool struct {
 	started int
 	// confirmed counts confirmed worker deaths (crash, stack overflow, timeout, …)
 	confirmed int
-	skipped   int
+	// confirmedKnown counts the known runaway recursions of the fixed prelude (not part of the
+	// "verdict is settled" budget)
+	confirmedKnown int
+	skipped        int
 	bigStack  map[string]bool
 }
 
@@ -582,6 +587,19 @@ func (pl *c02Pool) closeAll() {
 	pl.idle = nil
 }
 
+// firstBigStack reports whether sig is a recursion cycle not seen before in this run (by the
+// pool or by the CLI runs) and marks it as seen.
+func (pl *c02Pool) firstBigStack(sig string) bool {
+	pl.mu.Lock()
+	defer pl.mu.Unlock()
+	if pl.bigStack == nil {
+		pl.bigStack = map[string]bool{}
+	}
+	first := !pl.bigStack[sig]
+	pl.bigStack[sig] = true
+	return first
+}
+
 // Ask runs rq on some worker. When the worker dies or hangs, the request is re-run alone in
 // a fresh worker (with a doubled CPU budget, to be robust against a loaded machine); only a
 // confirmed failure is returned as such, an unconfirmed one is returned with Kind
@@ -612,18 +630,17 @@ func (pl *c02Pool) Ask(rq *c02Req) c02Outcome {
 	var env []string
 	rq2 := *rq
 	rq2.CPUms *= 2
+	// the confirmation is ONE pipeline run with twice the budget of the whole request: what is
+	// confirmed is "this input kills / hangs a worker", and a heavy but bounded input (seed 3 of
+	// session 3: pkg/list/testdata/repeat.txtar, `len(list.Repeat([0], 1000000))` at the
+	// documented limit, 10-20 CPU-seconds per run depending on machine load) must not be
+	// reported as a hang because two or more runs of it do not fit the budget
+	rq2.Runs = 1
 	if o.Kind == "stack-overflow" {
-		rq2.Runs = 1
 		// the first overflow of every recursion cycle is confirmed with Go's default 1 GB
 		// limit (thirty CPU seconds); later ones with the same cycle with the small limit
-		pl.mu.Lock()
-		if pl.bigStack == nil {
-			pl.bigStack = map[string]bool{}
-		}
-		first := !pl.bigStack[o.Sig]
-		pl.bigStack[o.Sig] = true
-		pl.mu.Unlock()
-		if first || o.Sig == "" {
+		first := pl.firstBigStack(o.Sig)
+		if (first || o.Sig == "") && !rq.Known {
 			env = append(env, "C02_MAXSTACK=1000000000")
 			rq2.CPUms = max(rq2.CPUms, 120000)
 		}
